@@ -36,10 +36,10 @@ PAIR_PROGRAMS = [
 
 def main():
     tier = common.tier()
-    n = 40 if tier == "quick" else 500
+    n = 120 if tier == "quick" else 800
     jobs = []
     for be in FIELDS:
-        for s in range(2 if tier == "quick" else 8):
+        for s in range(4 if tier == "quick" else 10):
             jobs.append(dict(seed="%d/%s/%s/%d" % (common.seed(), PROP, be, s), backend=be, n=n, scripts=1 if tier == "quick" else 3))
     R = common.Run(PROP, "translation_validation", RULE)
     for job, res, err in shard.run_jobs("vf.checks.C11", "worker", jobs, timeout=3600, nproc=16, shims=("flatbuffers",)):
